@@ -129,6 +129,14 @@ def redirectOK (r : HTTPRoute) : Bool :=
 def prefixOK (sem : Semantics) (m : HTTPMatch) : Bool :=
   !((sem == .ingress || sem == .gateway) && m.uri == some (.pfx "//"))
 
+/-- F-C12-4 side condition: the destination's service exposes the listener port, or the lookup
+    failure of the port-restricted registry is harmless (explicit destination port or a service that is
+    not single-port, and no ExternalName alias). -/
+def destViewOK (port : Nat) (svc : Option Service) (d : Destination) : Bool :=
+  match svc with
+  | none => true
+  | some s => s.ports.contains port || (s.externalName == "" && (d.port.isSome || s.ports.length != 1))
+
 def sideConditions (re : Regex) (vs : VirtualService) (req : Request) : Bool :=
   req.wf && vs.http.all (fun r => redirectOK r && r.matchBlocks.all (fun m => withoutOK re m req && prefixOK vs.sem m))
 
